@@ -497,7 +497,7 @@ Lemma pstep_lparen st rest :
           p_pos := p_pos st; p_barrier := p_barrier st |}, rest, true).
 Proof. reflexivity. Qed.
 
-Lemma pstep_pipe st sb subs rest : p_subs st = sb :: subs ->
+Lemma pstep_pipe st sb subs rest : p_subs st = sb :: subs -> p_depth st = sb_depth sb ->
   pstep st 124 rest =
   if Nat.leb 256 (length (p_res st ++ [Break 0]) - sb_case sb - 1)%nat then inl SubOverflow
   else inr ({| p_res := upd (p_res st ++ [Break 0]) (sb_case sb) (Case (N.of_nat (length (p_res st ++ [Break 0]) - sb_case sb - 1))) ++ [Case 0];
@@ -506,16 +506,16 @@ Lemma pstep_pipe st sb subs rest : p_subs st = sb :: subs ->
                             sb_brks := sb_brks sb ++ [length (p_res st)]; sb_save := sb_save sb;
                             sb_save_next := N.max (sb_save_next sb) (p_save st); sb_depth := sb_depth sb |} :: subs;
                p_pos := p_pos st; p_barrier := p_barrier st |}, rest, true).
-Proof. intros H. unfold pstep. rewrite H. reflexivity. Qed.
+Proof. intros H Hd. unfold pstep. rewrite H, Hd, (N.eqb_refl (sb_depth sb)). reflexivity. Qed.
 
-Lemma pstep_rparen st sb subs rest : p_subs st = sb :: subs ->
+Lemma pstep_rparen st sb subs rest : p_subs st = sb :: subs -> p_depth st = sb_depth sb ->
   pstep st 41 rest =
   match fill_breaks (upd (p_res st) (sb_case sb) Nop) (sb_brks sb) with
   | inl e => inl e
   | inr res2 => inr ({| p_res := res2; p_save := N.max (sb_save_next sb) (p_save st); p_depth := sb_depth sb; p_subs := subs;
                         p_pos := p_pos st; p_barrier := length res2 |}, rest, true)
   end.
-Proof. intros H. unfold pstep. rewrite H. reflexivity. Qed.
+Proof. intros H Hd. unfold pstep. rewrite H, Hd, (N.eqb_refl (sb_depth sb)). reflexivity. Qed.
 
 (* ---------------------------------------------------------------- the layout of a group while it is being parsed *)
 Fixpoint partial (ls : list (list atom)) : list atom :=
@@ -615,7 +615,7 @@ Section Alt.
     - apply bar_le in Hb. unfold bar_ok, pre, ctx in *. cbn [c_closed c_res fresh] in *.
       rewrite map_app. cbn [map]. rewrite partial_snoc. revert Hb. lens. intros Hb. destruct (c_closed cur); lia.
     - apply (steps_one _ 124 [] _ true). intros rest pos. cbn [app].
-      rewrite (pstep_pipe _ (mksub prev) sbs) by reflexivity.
+      rewrite (pstep_pipe _ (mksub prev) sbs) by reflexivity.  (* the alternative is balanced: depth = depth at '(' *)
       unfold G, mkst, set_pos, pre, mksub. cbn [p_res p_save p_depth p_subs p_barrier p_pos c_res c_save c_closed sb_case sb_brks sb_save sb_save_next sb_depth fresh].
       set (Ls := map c_res prev). set (Lc := c_res cur).
       assert (Eoff : (length ((ctx prev ++ Lc) ++ [Break 0]) - (length P0 + length (partial Ls)) - 1)%nat = (length Lc + 1)%nat).
